@@ -39,12 +39,13 @@ impl Prop for C07Prop {
             large_pct: 100,
             n_small: (21, 30),
             n_large: (21, 60),
-            regimes: vec![WeightRegime::AllNan, WeightRegime::Dyadic, WeightRegime::SmallInt, WeightRegime::Nasty, WeightRegime::Tiny, WeightRegime::NearEqual, WeightRegime::MixedScale],
+            regimes: vec![WeightRegime::AllNan, WeightRegime::Dyadic, WeightRegime::SmallInt, WeightRegime::Nasty, WeightRegime::FineDyadic, WeightRegime::Tiny, WeightRegime::NearEqual, WeightRegime::MixedScale],
             kinds: AlgoGen::all_kinds(),
             shapes: None,
             lifecycle_pct: 0,
             keyings: 1,
             boundary_per_mille: 0,
+            huge_one_in: 400,
         }
         .gen("C07", seed, idx);
         if idx % 100 == 99 {
@@ -258,7 +259,7 @@ impl Prop for C07Prop {
         out
     }
     fn rule(&self) -> String {
-        "graphs with 21-60 nodes of all 8 kinds (weighted / unweighted); all_pairs, multi_source (with target, first_only), get_all_shortest_paths_involving, betweenness_centrality (raw / normalized), closeness_centrality (plain / WF) evaluated once with a pool of 1 worker and under 6 (quick) / 9 (thorough) simulated pools of 2-16 workers - split tree, steals and leaf execution order drawn from the schedule seed, one third inside a caller-installed pool nested in a pool of another size - under the same hash keying; every key set, distance, path list (in order) and centrality compared by bit pattern with the single-threaded result. evaluations = cases; each case = 1 + k schedules. distinct_nontrivial = distinct (graph, set of schedule traces) in which a parallel job actually ran".into()
+        "graphs with 21-60 nodes of all 8 kinds (weighted / unweighted); all_pairs, multi_source (with target, first_only), get_all_shortest_paths_involving, betweenness_centrality (raw / normalized), closeness_centrality (plain / WF) evaluated once with a pool of 1 worker and under 6 (quick) / 9 (thorough) simulated pools of 2-16 workers - split tree, steals and leaf execution order drawn from the schedule seed, one third inside a caller-installed pool nested in a pool of another size - under the same hash keying; every key set, distance, path list (in order) and centrality compared by bit pattern with the single-threaded result. evaluations = cases; each case = 1 + k schedules. distinct_nontrivial = distinct (graph, set of schedule traces) in which a parallel job actually ran; one case in 400 is a dense graph (1-3 blocks, 60-300 nodes) with 2 100 - 12 500 stored edges under a pool of 2-16 workers (strategy thresholds)".into()
     }
     fn assumptions(&self) -> Vec<String> {
         vec![
